@@ -5,10 +5,13 @@ package checks
 import (
 	"context"
 	"encoding/json"
+	"errors"
 	"fmt"
+	"io"
 	"sort"
 	"strings"
 	"sync"
+	"testing/iotest"
 	"time"
 
 	"github.com/inbucket/inbucket/v3/pkg/config"
@@ -26,7 +29,9 @@ import (
 var c16Ops = []string{"add x 300", "add x 1100", "add y 600", "add y 2100", "remove x oldest", "remove x newest", "remove y oldest",
 	"purge x", "purge y", "delete-unknown x", "scan",
 	// one message to two recipients: two copies into one mailbox (x+a@, x+b@), and one each into x and y
-	"add2 x x 300", "add2 x y 600"}
+	"add2 x x 300", "add2 x y 600",
+	// a delivery whose source fails half way (straight to the store: the manager's source cannot fail)
+	"addfail x"}
 
 type c16Case struct {
 	Spec sys.StoreSpec `json:"spec"`
@@ -125,6 +130,12 @@ func c16Exec(c *fw.Ctx, spec sys.StoreSpec, seq []int, from int) (key string, ex
 				fmt.Sscan(f[2], &sz)
 				deliver(sz, f[1])
 				nontrivial = true
+			case "addfail":
+				d := sys.Delivery(f[1], "s@o.test", []string{f[1] + "@x.test"}, "f", "", time.Now())
+				d.Reader = io.MultiReader(strings.NewReader("Subject: f\r\n\r\nhalf of the bo"), iotest.ErrReader(errors.New("source failed")))
+				if _, err := st.AddMessage(d); err == nil {
+					fail("addfail-success", "AddMessage reported success although its source returned an error")
+				}
 			case "add2":
 				var sz int
 				fmt.Sscan(f[3], &sz)
